@@ -32,6 +32,11 @@ func main() {
 		host.Cleanup()
 		return
 	}
+	if len(os.Args) >= 3 && os.Args[1] == "replay" {
+		code := replayMain(os.Args[2])
+		host.Cleanup()
+		os.Exit(code)
+	}
 	if len(os.Args) < 3 {
 		ids := []string{}
 		for k := range registry {
